@@ -139,7 +139,11 @@ def run(ctx: Ctx) -> None:
     st = run_tlc("MCEmuPipeline", None, workdir=ctx.work, name="mc_R_seeded", cfg_text=cfg_text("reps-1", 2, 2, False), workers=4)
     if not st["violated"]:
         raise MachineryError("seeded loop defect range(reps-1) not detected by AllTrajectoriesAggregated (vacuous requirement)")
-    ctx.log(f"TLC Part R: {mc['distinct']} states, requirement + termination hold; seeded loop defect rejected ({st['violated'][0][1]})")
+    sb = run_tlc("MCEmuPipeline", None, workdir=ctx.work, name="mc_R_batched", cfg_text=cfg_text("reps+batched2", 3, 1, False), workers=4)
+    if not sb["violated"]:
+        raise MachineryError("mechanism variant 'mean of batch means' not rejected by AllTrajectoriesAggregated (vacuous requirement)")
+    ctx.log(f"TLC Part R: {mc['distinct']} states, requirement + termination hold; seeded loop defect rejected ({st['violated'][0][1]}); "
+            f"batched aggregation rejected ({sb['violated'][0][1]})")
 
     # ---- (2) real runs
     ns_q = [1, 2, 3, 5, 8]
